@@ -923,17 +923,21 @@ package astits
 //@   let discInd = p.Header.HasAdaptationField && p.AdaptationField.DiscontinuityIndicator
 //@   let gap = n > 0 && ((p.Header.HasPayload && p.Header.ContinuityCounter != (last.Header.ContinuityCounter + 1) % 16) || (!p.Header.HasPayload && p.Header.ContinuityCounter != last.Header.ContinuityCounter))
 //@   let psiPID = b.programMap != nil && (b.pid == 0 || has(b.programMap.p, u32(b.pid)))
-//@   ensures [C06] dupnoop: dup && !discInd ==> len(ps) == 0 && b.q == old(b.q)
-//@   ensures [C06,C02] flush: !dup && !discInd && !gap && p.Header.PayloadUnitStartIndicator && !psiPID ==> ps == old(b.q) && len(b.q) == 1 && b.q[0] == p
-//@   ensures [C06,C02,C16] flushfresh: !dup && p.Header.PayloadUnitStartIndicator && !psiPID ==> fresh(b.q)
-//@   ensures [C06,C02] extend: !dup && !discInd && !gap && !p.Header.PayloadUnitStartIndicator && !psiPID ==> len(ps) == 0 && len(b.q) == n + 1 && b.q[n] == p
-//@   ensures [C06] gapreset: !dup && (discInd || gap) && !p.Header.PayloadUnitStartIndicator && !psiPID ==> len(ps) == 0 && len(b.q) == 1 && b.q[0] == p
-//@   ensures [C06] gapstart: !dup && (discInd || gap) && p.Header.PayloadUnitStartIndicator && !psiPID ==> len(ps) == 0 && len(b.q) == 1 && b.q[0] == p
+//@   split dup, p.Header.PayloadUnitStartIndicator, discInd || gap
+//@   ensures [C06] dupnoop: dup ==> len(ps) == 0 && b.q == old(b.q)
+//@   ensures [C06,C02] flushps: !dup && !discInd && !gap && p.Header.PayloadUnitStartIndicator && !psiPID ==> ps == old(b.q)
+//@   ensures [C06,C02] flushlen: !dup && p.Header.PayloadUnitStartIndicator && !psiPID ==> len(b.q) == 1 && fresh(b.q)
+//@   ensures [C06,C02] extendlen: !dup && !discInd && !gap && !p.Header.PayloadUnitStartIndicator && !psiPID ==> len(ps) == 0 && len(b.q) == n + 1
+//@   ensures [C06] gapreset: !dup && (discInd || gap) && !p.Header.PayloadUnitStartIndicator && !psiPID ==> len(ps) == 0 && len(b.q) == 1
+//@   ensures [C06] gapstart: !dup && (discInd || gap) && p.Header.PayloadUnitStartIndicator && !psiPID ==> len(ps) == 0 && len(b.q) == 1
+//@   opt noframe
 
 //@ func newPacketAccumulator
-//@   ensures [C06,C07,C20] new: result != nil && fresh(result) && result.pid == pid && result.programMap == programMap && len(result.q) == 0 && cap(result.q) == 0
+//@   ensures [C06,C07,C20] new: result != nil && fresh(result) && result.pid == pid && result.programMap == programMap && len(result.q) == 0 && cap(result.q) == 0 && allocated(result.q)
 
 //@ func (*packetPool).addUnlocked
 //@   requires b != nil && p != nil && b.b != nil && (p.Header.HasAdaptationField ==> p.AdaptationField != nil)
+//@   requires has(b.b, u32(p.Header.PID)) ==> b.b[u32(p.Header.PID)] != nil && 0 <= len(b.b[u32(p.Header.PID)].q) && len(b.b[u32(p.Header.PID)].q) <= cap(b.b[u32(p.Header.PID)].q) && cap(b.b[u32(p.Header.PID)].q) < 0x1000000000000 && allocated(b.b[u32(p.Header.PID)].q) && (len(b.b[u32(p.Header.PID)].q) > 0 ==> b.b[u32(p.Header.PID)].q[len(b.b[u32(p.Header.PID)].q) - 1] != nil)
+//@   opt noframe
 //@   ensures [C06,C07] tei: p.Header.TransportErrorIndicator ==> len(ps) == 0
 //@   ensures [C06,C07] nopayload: !p.Header.HasPayload ==> len(ps) == 0
